@@ -14,7 +14,7 @@ RUNNER = os.path.join(ML, "runner")
 TRUSTED_BASE = [
     "Coq 8.16.1 kernel incl. its bytecode VM (vm_compute in the in-Coq case evaluation, refutation witnesses and finite sweeps); no native_compute",
     "axioms: none (every Print Assumptions reports 'Closed under the global context'; standard library only: List, NArith, ZArith, Lia, Bool, Byte, PeanoNat, Zify*)",
-    "tools/gen_tables.py + tools/rsexpr.py: translator of the Rust sources into Model/Generated.v — enum/constant tables; the decoder's opcode dispatch, the request variant each body parser builds, the handler's routing (request variant -> handler -> filter); and, as Rust integer expressions with overflow = None (Model/RustInt.v), header_valid, request_valid, every comparison with the item size limit, the expiry tests of check_if_expired, the re-dating test of a delayed flush, the counter arithmetic of add_delta, get_value_len and the body lengths the incr/decr and set parsers require, and the field order/widths of both headers. Regex/recursive-descent over the source text, not a Rust front end: a function whose shape it does not recognise is reported (coverage.not_translated) and left to the correspondence check alone",
+    "tools/gen_tables.py + tools/rsexpr.py: translator of the Rust sources into Model/Generated.v — enum/constant tables; the decoder's opcode dispatch, the request variant each body parser builds, the handler's routing (request variant -> handler -> filter); and, as Rust integer expressions with overflow = None (Model/RustInt.v), header_valid, request_valid, every comparison with the item size limit, the expiry tests of check_if_expired, the re-dating test of a delayed flush, the counter arithmetic of add_delta, get_value_len and the body lengths the incr/decr and set parsers require, the field order/widths of both headers, and the sequence of buffer reads (get_uN / split_to, with the field each goes into) of the set, incr/decr, append/prepend, get and delete parsers. Regex/recursive-descent over the source text, not a Rust front end: a function whose shape it does not recognise is reported (coverage.not_translated) and left to the correspondence check alone",
     "extraction: Require Extraction + ExtrOcamlBasic (Extract Inductive for bool, option, unit, list, prod, sumbool; no Extract Constant), OCaml 4.13.1, runner/runner.ml glue (hex/decimal parsing, Obj.magic int<->byte self-checked at start-up); the glue is cross-checked by evaluating a sample of every kind of case inside Coq",
     "correspondence: Rust harness (generators, canonicalisation, seq connection emulation, schedulers, logging Cache interposers Spy/ScanSpy/OuterSpy, timed probes) — differential testing, bounds the assurance",
     "the memcrsd binary run by the configuration profile is built by the check from /repo (same flags as the harness); /proc/net/tcp (accept-queue lengths, mlimit profile) and /proc/self/task/*/stat (blocked-client detection) are read as the kernel reports them",
@@ -872,17 +872,24 @@ def run_seq_suites(prop, cfg, tier, seed, work, report):
     all_diffs = []
     mult = 1 if tier == "quick" else 30
     suites = []
-    # corpus first
+    # corpus first: the minimized inputs on which seeded changes of this property made the two
+    # sides disagree (tools/mkcorpus.py; on the unchanged tree they agree)
     cdir = os.path.join(ROOT, "corpus")
-    corpus_files = sorted(f for f in os.listdir(cdir) if f.endswith(".trace")) if os.path.isdir(cdir) else []
-    for cf in corpus_files:
-        tag = "corpus_" + cf[:-6]
+    for profile in ("seq", "conn"):
+        cf = os.path.join(cdir, "%s.%s.trace" % (prop, profile))
+        if not os.path.exists(cf):
+            continue
+        tag = ("conn_" if profile == "conn" else "") + "corpus_" + profile
         tout, iobs, mobs = [os.path.join(work, tag + e) for e in (".trace", ".impl", ".model")]
-        rc, out = sh([HBIN, "seq-replay", "--in", os.path.join(cdir, cf), "--trace", tout, "--obs", iobs], timeout=600)
+        cmd = [HBIN, profile + "-replay", "--in", cf, "--trace", tout, "--obs", iobs]
+        rc, out = sh(cmd, timeout=900)
+        if rc != 0 and profile == "conn":
+            rc, out = sh(cmd, timeout=900)
         if rc != 0:
             report["errors"].append("harness failed on corpus %s: %s" % (cf, out[-500:]))
             continue
         suites.append((tag, tout, iobs, mobs, None))
+        report["distribution"]["corpus_cases_" + profile] = sum(1 for l in open(cf) if l.startswith("CASE "))
     allsuites = [("seq",) + t for t in cfg.get("seq", SEQ_DEFAULT)] + [("conn",) + t for t in cfg.get("conn", [])]
     for si, (profile, flavor, il, ml, ncases, steps) in enumerate(allsuites):
         tag = "%s_%d_%s" % (profile, si, flavor)
